@@ -1,0 +1,86 @@
+//go:build verif && (unix || windows)
+
+package vgirpc
+
+import "github.com/apache/arrow-go/v18/arrow"
+
+// Verification hooks for property C35 (build tag "verif", add-only): thin
+// exported wrappers around the shared-memory batch I/O internals of shm.go.
+// Nothing here is compiled into normal builds and nothing re-implements logic.
+
+// VerifC35SkipOneIPCMessage wraps skipOneIPCMessage.
+func VerifC35SkipOneIPCMessage(buf []byte) (int, error) { return skipOneIPCMessage(buf) }
+
+// VerifC35SerializeForShm wraps serializeForShm (stripped layout used for
+// top-level-dictionary schemas).
+func VerifC35SerializeForShm(batch arrow.RecordBatch) ([]byte, error) {
+	return serializeForShm(batch)
+}
+
+// VerifC35SerializeForShmFull wraps serializeForShmFull.
+func VerifC35SerializeForShmFull(batch arrow.RecordBatch) ([]byte, error) {
+	return serializeForShmFull(batch)
+}
+
+// VerifC35WriteSchemaOnlyStream wraps writeSchemaOnlyStream.
+func VerifC35WriteSchemaOnlyStream(schema *arrow.Schema) ([]byte, error) {
+	return writeSchemaOnlyStream(schema)
+}
+
+// VerifC35EstimateSerializedSize wraps estimateSerializedSize (the capacity
+// pre-check's upper bound).
+func VerifC35EstimateSerializedSize(batch arrow.RecordBatch) int {
+	return estimateSerializedSize(batch)
+}
+
+// VerifC35BatchBufferSize wraps batchBufferSize (what MaybeWriteToShm compares
+// with the minimum-batch threshold).
+func VerifC35BatchBufferSize(batch arrow.RecordBatch) int64 { return batchBufferSize(batch) }
+
+// VerifC35ShmMinBatchBytes wraps shmMinBatchBytes.
+func VerifC35ShmMinBatchBytes() int64 { return shmMinBatchBytes() }
+
+// VerifC35SchemaKind reports which storage layout AllocateAndWrite/ReadBatch
+// select for schema: "top" (stripped), "nested" (full stream through the IPC
+// writer) or "plain" (fast path).
+func VerifC35SchemaKind(schema *arrow.Schema) string {
+	if schemaHasTopLevelDictionary(schema) {
+		return "top"
+	}
+	if schemaHasNestedDictionary(schema) {
+		return "nested"
+	}
+	return "plain"
+}
+
+// VerifC35MakePointerBatch wraps makeShmPointerBatch.
+func VerifC35MakePointerBatch(schema *arrow.Schema, offset uint64, length int, extra map[string]string) arrow.RecordBatch {
+	return makeShmPointerBatch(schema, offset, length, extra)
+}
+
+// VerifC35Region returns a copy of the mapped bytes [lo, hi) of the segment,
+// or nil when the range does not lie inside the mapping. Test-side observation
+// only; it does not go through ReadBatch.
+func (s *ShmSegment) VerifC35Region(lo, hi uint64) []byte {
+	s.mu.Lock()
+	defer s.mu.Unlock()
+	if s.closed.Load() || lo > hi || hi > uint64(len(s.data)) {
+		return nil
+	}
+	out := make([]byte, hi-lo)
+	copy(out, s.data[lo:hi])
+	return out
+}
+
+// VerifC35Poke overwrites mapped bytes starting at off (what a peer process
+// with the segment mapped can do at any time). Returns false when the range is
+// outside the mapping.
+func (s *ShmSegment) VerifC35Poke(off uint64, b []byte) bool {
+	s.mu.Lock()
+	defer s.mu.Unlock()
+	if s.closed.Load() || off > uint64(len(s.data)) || uint64(len(b)) > uint64(len(s.data))-off {
+		return false
+	}
+	copy(s.data[off:], b)
+	return true
+}
